@@ -801,7 +801,11 @@ impl TypedExpr {
             }
             ExprEnum::UnaryOp(UnaryOp::Neg, x) => {
                 let x = x.compile(prg, env, circuit);
-                circuit.push_negation_circuit(&x)
+                let negated = circuit.push_negation_circuit(&x);
+                // only the minimum value has no negation: x and -x are then both negative
+                let overflow = circuit.push_and(x[0], negated[0]);
+                circuit.push_panic_if(overflow, PanicReason::Overflow, meta);
+                negated
             }
             ExprEnum::UnaryOp(UnaryOp::Not, x) => {
                 let x = x.compile(prg, env, circuit);
